@@ -1514,13 +1514,14 @@ func ruleNonSynIgnored(c *Checker, fn *ssa.Function) {
 	}
 	found, okk := false, true
 	okShortcut := true
+	_ = isNonSyn
 	for _, b := range fn.Blocks {
-		if !hasFact(b, isNonSyn) || len(b.Instrs) == 0 {
+		if !nonSynKnown(b) || len(b.Instrs) == 0 {
 			continue
 		}
 		entry := false
 		for _, p := range b.Preds {
-			if !hasFact(p, isNonSyn) {
+			if !nonSynKnown(p) {
 				entry = true
 			}
 		}
@@ -1562,12 +1563,16 @@ func ruleNonSynIgnored(c *Checker, fn *ssa.Function) {
 		if walk(b) {
 			okk = false
 		}
-		// the restart shortcut itself is only for a SYNACK or a DATA packet: a block under the restart
-		// flag must not be reachable from the non-SYN region without crossing an edge on which the
-		// packet was identified as one of the two (a FIN/ACK/NACK of an abandoning or earlier client
-		// must not complete the handshake)
-		if isServer {
-			isAckOrData := func(f Fact) bool {
+		_ = b
+
+	}
+	if isServer {
+		// the restart shortcut itself is only for a SYNACK or a DATA packet: every block that is under
+		// the restart flag AND leads to completion without another receive must be known to handle one
+		// of the two (entered over successful type tests for them). A FIN/ACK/NACK of an abandoning or
+		// earlier client must not complete the handshake.
+		ackOrData := func(b *ssa.BasicBlock) bool {
+			isAD := func(f Fact) bool {
 				ex, ok := f.Cond.(*ssa.Extract)
 				if !ok || !f.Val || ex.Index != 1 {
 					return false
@@ -1579,37 +1584,35 @@ func ruleNonSynIgnored(c *Checker, fn *ssa.Function) {
 				n := namedOf(ta.AssertedType).Obj().Name()
 				return n == "PacketSYNACK" || n == "PacketData"
 			}
-			seen2 := map[*ssa.BasicBlock]bool{b: true}
-			work := []*ssa.BasicBlock{b}
-			for len(work) > 0 && okShortcut {
-				x := work[len(work)-1]
-				work = work[:len(work)-1]
-				if restartOK(x) {
-					okShortcut = false
-					break
+			if hasFact(b, isAD) {
+				return true
+			}
+			for x := b; x != nil; x = x.Idom() {
+				if len(x.Preds) == 0 {
+					continue
 				}
-				for _, in := range x.Instrs {
-					for _, r := range receives {
-						if in == r {
-							goto next
-						}
+				all := true
+				for _, p := range x.Preds {
+					f, ok := edgeFact(p, x)
+					if !ok || !isAD(f) {
+						all = false
+						break
 					}
 				}
-				for _, sct := range x.Succs {
-					if seen2[sct] || !edgeFeasible(x, sct) {
-						continue
-					}
-					if f, ok := edgeFact(x, sct); ok && isAckOrData(f) {
-						continue
-					}
-					seen2[sct] = true
-					work = append(work, sct)
+				if all {
+					return true
 				}
-			next:
+			}
+			return false
+		}
+		for _, b := range fn.Blocks {
+			if !restartOK(b) || !nonSynKnown(b) || (dominatedBySynEcho(w, b)) {
+				continue
+			}
+			if !ackOrData(b) {
+				okShortcut = false
 			}
 		}
-	}
-	if isServer {
 		c.decide(okShortcut, "GBNHS-3", fnName(fn)+"|restart shortcut only for SYNACK or DATA", fn.Pos(),
 			"the leg that completes after a restart is entered only through a successful type test for SYNACK or DATA",
 			"after a restart any non-SYN packet (FIN, ACK, NACK of an abandoning or earlier client) completes the server's handshake: it enters the data phase although no client finished")
@@ -1652,12 +1655,13 @@ func isRestartFlag(fn *ssa.Function, phi *ssa.Phi) bool {
 		ta, ok := ex.Tuple.(*ssa.TypeAssert)
 		return ok && namedOf(ta.AssertedType) != nil && namedOf(ta.AssertedType).Obj().Name() == "PacketSYN"
 	}
+	_ = nonSyn
 	for _, r := range *phi.Referrers() {
 		iff, ok := r.(*ssa.If)
 		if !ok || iff.Cond != ssa.Value(phi) {
 			continue
 		}
-		if hasFact(iff.Block(), nonSyn) {
+		if nonSynKnown(iff.Block()) {
 			return true
 		}
 	}
@@ -1735,4 +1739,53 @@ func ruleHandshakeTimerRearmed(c *Checker, fn *ssa.Function) {
 				"the wait can be re-entered with a timeout that is not re-armed (e.g. after it fired once): a second lost SYN or SYN reply blocks the handshake forever")
 		}
 	})
+}
+
+// nonSynKnown: at block b the parsed handshake packet is known not to be a SYN: a failed type
+// test for *PacketSYN dominates b, or b (or a dominator of b) is entered only over edges on which
+// a type test for another packet type succeeded (the body of `case *PacketSYNACK, *PacketData:`).
+func nonSynKnown(b *ssa.BasicBlock) bool {
+	assertOf := func(f Fact) (string, bool) {
+		ex, ok := f.Cond.(*ssa.Extract)
+		if !ok || ex.Index != 1 {
+			return "", false
+		}
+		ta, ok := ex.Tuple.(*ssa.TypeAssert)
+		if !ok || namedOf(ta.AssertedType) == nil {
+			return "", false
+		}
+		return namedOf(ta.AssertedType).Obj().Name(), true
+	}
+	for _, f := range factsAt(b) {
+		if n, ok := assertOf(f); ok {
+			if n == "PacketSYN" && !f.Val {
+				return true
+			}
+			if n != "PacketSYN" && strings.HasPrefix(n, "Packet") && f.Val {
+				return true
+			}
+		}
+	}
+	for x := b; x != nil; x = x.Idom() {
+		if len(x.Preds) == 0 {
+			continue
+		}
+		all := true
+		for _, p := range x.Preds {
+			f, ok := edgeFact(p, x)
+			if !ok {
+				all = false
+				break
+			}
+			n, isA := assertOf(f)
+			if !isA || !f.Val || n == "PacketSYN" || !strings.HasPrefix(n, "Packet") {
+				all = false
+				break
+			}
+		}
+		if all {
+			return true
+		}
+	}
+	return false
 }
